@@ -276,8 +276,17 @@ Keys3 ==
   \cup {<<List(<<a, b, c>>)>> : a \in DeepLeaves, b \in DeepLeaves, c \in DeepLeaves}
   \cup {<<a, b, c>> : a \in DeepLeaves, b \in DeepLeaves, c \in DeepLeaves}
 
-VARIABLES box, keys
-vars == <<box, keys>>
+\* CHARSET: the patterns of the model are ASCII, so every ASCII-compatible charset gives the result of the
+\* command without CHARSET.  RFC 3501: US-ASCII MUST and UTF-8 SHOULD be supported; a charset the server
+\* does not support MUST be refused with a tagged NO.  Which further charsets are supported is the
+\* server's business: for those either outcome is right (orno), anything else (BAD, no reply) is not.
+MustCharsets == {"UTF-8", "US-ASCII"}
+MayCharsets == {"ISO-8859-1", "ISO-2022-CN", "X-NO-SUCH-CHARSET"}    \* ASCII compatible / registered, rarely implemented / not registered
+CharsetKeys == {<<Leaf("ALL")>>, <<LeafS("FROM", pAnn)>>, <<LeafS("CC", pAnn)>>, <<Not(LeafS("SUBJECT", pFox))>>,
+                <<LeafS("BODY", pGnu), Leaf("SEEN")>>}
+
+VARIABLES box, keys, cs
+vars == <<box, keys, cs>>
 
 -----------------------------------------------------------------------------
 (* evaluation *)
@@ -377,7 +386,9 @@ Result(ks, b) ==
      ELSE [res |-> "OK", pos |-> P, seqs |-> sq, uids |-> [x \in 1..Len(sq) |-> v[sq[x]].uid]]
 
 -----------------------------------------------------------------------------
-Init == box \in Boxes /\ (keys = <<>> \/ keys \in Keys2 \/ (box # "E" /\ keys \in Keys3))
+Init == /\ box \in Boxes
+        /\ \/ cs = "" /\ (keys = <<>> \/ keys \in Keys2 \/ (box # "E" /\ keys \in Keys3))
+           \/ cs \in MustCharsets \cup MayCharsets /\ keys \in CharsetKeys
 Next == UNCHANGED vars          \* every case is an initial state
 Spec == Init /\ [][Next]_vars
 
@@ -407,7 +418,8 @@ PrintCase ==
   Emit => IF keys = <<>>
           THEN PrintT(ToJson([def |-> box, idlen |-> IdLineLen, msgs |-> [i \in 1..N |-> PrMsg(V[i])]]))
           ELSE LET e == Expected IN
-               PrintT(ToJson([box |-> box, keys |-> [j \in 1..Len(keys) |-> Pr(keys[j])],
+               PrintT(ToJson([box |-> box, cs |-> cs, orno |-> cs \in MayCharsets,
+                              keys |-> [j \in 1..Len(keys) |-> Pr(keys[j])],
                               exp |-> [res |-> e.res, seqs |-> e.seqs, uids |-> e.uids]]))
 
 -----------------------------------------------------------------------------
